@@ -231,6 +231,8 @@ func isMsgChanType(t types.Type) bool {
 }
 
 func runC16(c *Ctx) {
+	r7 := c.R.Rule("R7", "K5 frozen guarded-by table: the per-pipeline lock registry (pipelineLocks.locks) is accessed only under its mu — the premise of 'one apply per pipeline at a time'", 2)
+	c.guardTable(r7, guardEntry{Rel: pProv, Struct: "pipelineLocks", Mutex: "mu", Fields: []string{"locks"}, Min: 2})
 	r1 := c.R.Rule("R1", "K3/K4 lock, re-plan, hash: the per-pipeline lock is taken (deferred unlock) before the re-plan; every mutating call is dominated by Plan[ok] and the hash-equal edge", 14)
 	r2 := c.R.Rule("R2", "K3 authorisation: a running pipeline is touched only on the allowRestartOnRunning edge; ApplyPlan refuses a running pipeline", 5)
 	r4 := c.R.Rule("R4", "K3 drain before mutate: StopAndWait[ok] → transactionalImport[ok] → Start; provisioning never calls the non-draining Stop", 4)
